@@ -1,7 +1,7 @@
 (** C18 — recording metadata tells the truth about the run.  Statements only. *)
-From Playback Require Import Base.Str Values.PyVal Values.KeyFormat Recorder.Dsl Recorder.Exec Recorder.Run
+From Playback Require Import Base.Str Base.StrFacts Values.PyVal Values.KeyFormat Values.KeyFacts Recorder.Dsl Recorder.Exec Recorder.Run
   Recorder.RecFacts Recorder.SnapFacts Recorder.MetaFacts.
-From Coq Require Import QArith.
+From Coq Require Import QArith Lia.
 
 (** [metadata_spec op o] (MetaFacts.v) is the documented content: the operation's class; the exception
     flag = "ended in an ordinary exception" for every run that was not cut short by an interrupt-style
@@ -53,3 +53,35 @@ Example C18_example :
                               op false fresh_rst fresh_world in
   exists d, ob_cass ob = [CCreate (U"Op"); CSave 0 d [(K_CLASS, VClass (U"Op")); (K_INCOMPLETE, VBool true)]].
 Proof. vm_compute. eexists. reflexivity. Qed.
+
+(** ---- non-vacuity (wp-audit): the hypothesis [sites_ok clean] of C18_metadata_truth quantifies over EVERY call
+    ordinal of every output alias; it holds for the operation of [C18_example] (alias "send": no '_' in
+    "output: send #<digits>.output", and ".result" keys are not output entries), together with the other two
+    premises (no recording active, a CSave among the cassette calls) ---- *)
+Example c18_send_clean : forall n, clean (okey_output (U"send") n) /\ clean (okey_result (U"send") n).
+Proof.
+  intros n. split.
+  - apply C18_clean_sufficient. unfold okey_output, okey. rewrite !in_app_iff.
+    intros [[I|[I|[I|I]]]|I]; try (vm_compute in I; intuition discriminate).
+    revert I. apply digits_not_in; [apply show_N_digits|unfold is_digit; lia].
+  - intros O. rewrite result_key_not_output in O. discriminate.
+Qed.
+
+Example C18_metadata_truth_nonvacuous :
+  let oc := {| o_alias := U"send"; o_static := true; o_handler := None; o_fail := true; o_default := VNone |} in
+  let op := {| op_class := U"Op"; op_classlevel := true; op_extractor := XJunk;
+               op_body := Out oc (Ret (Lit VNone)) [Lit (VInt 1)] []
+                            (RecordData (U"note") (Lit (VInt 1)) (Out oc Interrupt [] [] (Ret (Var 0)))) |} in
+  active fresh_rst = false /\ sites_ok clean (op_body op) /\
+  let '(ob, _) := record_run (fun _ => 0) true {| p_rate := 1; p_ignore := false; p_skipped := false; p_copy := false |}
+                             op false fresh_rst fresh_world in
+  ob_outcome ob = OInt /\
+  exists d, List.In (CSave 0 d [(K_CLASS, VClass (U"Op")); (K_INCOMPLETE, VBool true)]) (ob_cass ob) /\ length d = 4%nat.
+Proof.
+  cbv zeta. split; [reflexivity|]. split.
+  - cbn [sites_ok op_body o_alias].
+    split; [exact c18_send_clean|]. split; [exact I|].
+    split; [apply C18_clean_sufficient; vm_compute; intuition discriminate|].
+    split; [exact c18_send_clean|]. split; exact I.
+  - vm_compute. split; [reflexivity|]. eexists. split; [right; left; reflexivity|reflexivity].
+Qed.
